@@ -27,7 +27,7 @@ def run_native(h, fs, test_src, scratch):
     env = dict(kanirun.ENV, VERIF_GEN_DIR=scratch)
     env["CARGO_TARGET_DIR"] = os.path.join(scratch, "target-playback")
     cmd = ["cargo", "kani", "playback", "--lib", "-Z", "concrete-playback", "-Z", "function-contracts",
-           "-Z", "stubbing", "-Z", "unstable-options", "-Z", "loop-contracts", "-Z", "mem-predicates"] + kanirun.FEATURE_SETS[fs] + ["--", test_name]
+           "-Z", "stubbing", "-Z", "unstable-options", "-Z", "mem-predicates"] + kanirun.FEATURE_SETS[fs] + ["--", test_name]
     try:
         p = subprocess.run(cmd, cwd=kanirun.REPO, env=env, stdout=subprocess.PIPE, stderr=subprocess.STDOUT, text=True, timeout=600)
     except subprocess.TimeoutExpired:
